@@ -27,6 +27,7 @@ func init() {
 		"vfCover":      vfCover,
 		"vfUFBool":     vfUFBool,
 		"vfUFInt":      vfUFInt,
+		"vfUFIRI":      vfUFIRI,
 		"vfAnd":        vfAnd,
 		"vfOr":         vfOr,
 		"vfNot":        vfNot,
@@ -156,6 +157,8 @@ func (p *pathCtx) ufApply(name string, arg value, kind string) *sym {
 			p.sol.send("(declare-fun " + fn + " (String) Bool)\n")
 		case "int":
 			p.sol.send("(declare-fun " + fn + " (String) (_ BitVec 64))\n")
+		case "iri":
+			p.sol.send("(declare-fun " + fn + " (String) String)\n")
 		}
 	}
 	app := "(" + fn + " " + a.e + ")"
@@ -172,9 +175,22 @@ func (p *pathCtx) ufApply(name string, arg value, kind string) *sym {
 	switch kind {
 	case "bool":
 		return &sym{s: sBool, e: app}
+	case "iri":
+		if !seen {
+			p.assertTerm("(url_ok " + app + ")")
+			p.assertTerm("(= (url_scheme " + app + ") \"https\")")
+			p.assertTerm("(= (url_norm " + app + ") " + app + ")")
+			p.assertTerm("(not (= (url_host " + app + ") \"\"))")
+		}
+		return &sym{s: sStr, e: app}
 	default:
 		return &sym{s: sBV, w: 64, e: app}
 	}
+}
+
+// vfUFIRI(name, arg): uninterpreted function String -> IRI string.
+func vfUFIRI(fr *frame, args []value) value {
+	return fr.i.pc.ufApply(argString(args[0], "name"), args[1], "iri")
 }
 
 // vfUFBool(name, arg): an uninterpreted predicate of a string (same
